@@ -20,6 +20,8 @@ def lp_wrap(fragment, nack_reason='absent', token=None, extra=False, frag=None, 
     Header order follows increasing type number, Fragment last."""
     hdr = []
     if odd:
+        hdr.append((0x1e, b'\x01'))                       # unknown, small even type number
+        hdr.append((0x1f, b''))                           # unknown, small odd type number (seed round 7: types <= 31 special-cased)
         hdr.append((0x51, bytes(8)))                      # Sequence (not modelled by the library: unknown to it)
     if frag is not None:
         hdr.append((0x52, st.uint_bytes(frag[0])))
